@@ -171,7 +171,12 @@ func runC24(c *Ctx) {
 			"isaacdatabase.leveldbProposalPointKey(pr.ProposalFact().Point(), pr.ProposalFact().Proposer(), pr.ProposalFact().PreviousBlock())")
 		c.ArgIs(fn, "point index holds the proposal fact's hash", idx, 1, 1, "pr.Fact().Hash().Bytes()")
 		c.ArgIs(fn, "proposal stored under its fact hash", main, 1, 0, "isaacdatabase.leveldbProposalKey(pr.Fact().Hash())")
-		c.ArgIs(fn, "existence tested under the same key", c.CallsTo(fn, "(*storage/leveldb.PrefixStorage).Exists"), 1, 0, "isaacdatabase.leveldbProposalKey(pr.Fact().Hash())")
+		pk := "isaacdatabase.leveldbProposalPointKey(pr.ProposalFact().Point(), pr.ProposalFact().Proposer(), pr.ProposalFact().PreviousBlock())"
+		c.ArgIs(fn, "existence tested under the proposal's own key (and, for the index, under the index key)", c.CallsTo(fn, "(*storage/leveldb.PrefixStorage).Exists"), 1, 0,
+			"isaacdatabase.leveldbProposalKey(pr.Fact().Hash())", pk)
+		// first-writer-wins for the by-point lookup too: the index entry is written only if none exists
+		c.MP(fn, "the point index is written only if the (point, proposer, previous block) has no entry yet", idx, 1, GFalse("*.Exists("+pk+")#0"))
+		c.MP(fn, "the point index is written only after its existence test succeeded", idx, 1, GOk("*.Exists("+pk+")"))
 	}
 	if fn := c.Need("isaac/database.(*TempPool).ProposalByPoint"); fn != nil {
 		get := c.CallsD(fn, "*.Get(*)")
